@@ -9,10 +9,10 @@ META = {
     "technique": "Coq simulation proof by induction over operand lists of any length (statement-lifting machine of and/or, "
                  "every fault oracle) + reference-semantics theorem in the property's words; AST-level correspondence with "
                  "hy_compile; CPython execution of the real compiled code vs the reference",
-    "level_text": "C02_compiled_and_or_correct: for every operator, every operand list of any length whose operands are "
-                  "arbitrary layer-1 forms (plain, effectful, statement-producing, nested and/or, if, not, raise), every "
-                  "fault oracle and store, the compiled result simulates the reference (value or escaping exception, "
-                  "effect trace, user variables). C02_reference_semantics: the reference is the property's wording for "
+    "level_text": "C02_compiled_and_or_correct(_loop_free): for every operator, every operand list of any length whose "
+                  "operands are arbitrary forms of the modelled language (plain, effectful, statement-producing, nested "
+                  "and/or, if, not, raise, try, while), every fault oracle and store, the compiled result simulates the "
+                  "reference (value or escaping exception, effect trace, user variables). C02_reference_semantics: the reference is the property's wording for "
                   "every arity and truth assignment. The compiler model is compared with hy_compile at AST level and the "
                   "target semantics with CPython on every generated program.",
     "level_note": "Trusted: Coq kernel; PySem (Python fragment semantics, validated against CPython each run, not verified); "
